@@ -13,12 +13,9 @@ mod kani_harness {
 		let src = COMPS[SI];
 		let want: Option<TileCompression> = if WI < 3 { Some(COMPS[WI]) } else { None };
 		let force: bool = kani::any();
-		let flip: bool = kani::any();
-		let swap: bool = kani::any();
-		let mut pyr = TileBBoxPyramid::new_empty();
-		pyr.level_bbox[2] = any_bbox_at(2);
-		let reader = EchoReader::new(pyr, src);
-		let cp = TilesConverterParameters::new(want, None, force, flip, swap);
+		// coverage and coordinate transform are irrelevant here (C06): empty pyramid, no flip / swap
+		let reader = EchoReader::new(TileBBoxPyramid::new_empty(), src);
+		let cp = TilesConverterParameters::new(want, None, force, false, false);
 		let conv = ok(TilesConvertReader::new_from_reader(Box::new(reader), cp)).unwrap();
 		let declared = conv.reader_parameters.tile_compression;
 		assert!(declared == want.unwrap_or(src), "declared compression is neither the requested nor the source one");
@@ -35,7 +32,7 @@ mod kani_harness {
 		assert!(back.is_some(), "tile does not decode under the declared compression");
 		assert!(back.unwrap().as_slice() == payload.as_slice(), "payload changed by the converting reader's pipeline");
 		kani::cover!(force);
-		kani::cover!(!force && (flip || swap));
+		kani::cover!(!force);
 		std::mem::forget(conv);
 	}
 
